@@ -604,6 +604,8 @@ func (e *Env) callPure(pf *PureFunc, n *SCall) Val {
 	env.vars = make(map[string]Val, len(pf.Params))
 	env.lookup = nil
 	env.pkg = pf.Pkg
+	var key strings.Builder
+	key.WriteString(pf.Name)
 	for i, p := range pf.Params {
 		v := e.Eval(n.Args[i])
 		if p.Type != "" {
@@ -611,8 +613,25 @@ func (e *Env) callPure(pf *PureFunc, n *SCall) Val {
 			v = e.coerce(v, t)
 		}
 		env.vars[p.Name] = v
+		eachLeaf(v, "", func(path string, lv Val) { key.WriteString("|" + lv.S) })
 	}
-	return env.Eval(pf.Body)
+	// applications evaluated in the (immutable) entry state are memoised, so that the
+	// same closed formula is literally the same SMT term wherever it occurs
+	memo := len(e.cur.heap) == 0 && len(e.x.qsyms) == 0
+	if memo {
+		if v, ok := e.x.pureMemo[key.String()]; ok {
+			return v
+		}
+	}
+	res := env.Eval(pf.Body)
+	if memo {
+		res = e.x.nameVal("pure."+pf.Name, res)
+		if e.x.pureMemo == nil {
+			e.x.pureMemo = map[string]Val{}
+		}
+		e.x.pureMemo[key.String()] = res
+	}
+	return res
 }
 
 func (e *Env) strArg(n *SCall, i int) string {
